@@ -1,0 +1,164 @@
+//! Verification hooks.
+//!
+//! This module only exists when the crate is compiled with
+//! `--cfg aranya_core_verif`. It lets an external harness
+//! observe and schedule the individual atomic operations of
+//! [`crate::mutex`] and `crate::memory::lender`.
+//!
+//! Without an installed [`Hooks`] table every function here is
+//! a no-op and the normal code paths (including the real futex
+//! system call) are used.
+
+#![cfg(aranya_core_verif)]
+#![allow(missing_docs, clippy::undocumented_unsafe_blocks)]
+
+use core::sync::atomic::{AtomicPtr, AtomicU32, Ordering};
+
+/// `Mutex::sys_lock`: fast path `compare_exchange`.
+pub const SITE_LOCK_CAS: u32 = 1;
+/// `Mutex::sys_lock`: `load` in the passive spin loop.
+pub const SITE_SPIN_LOAD: u32 = 2;
+/// `Mutex::sys_lock`: `compare_exchange` in the passive spin loop.
+pub const SITE_SPIN_CAS: u32 = 3;
+/// `Mutex::sys_lock`: `sched_yield` in the passive spin loop.
+pub const SITE_SPIN_YIELD: u32 = 4;
+/// `Mutex::sys_lock`: `swap(MUTEX_SLEEPING)`.
+pub const SITE_LOCK_SWAP: u32 = 5;
+/// `futex_wait` (the compare-and-sleep).
+pub const SITE_FUTEX_WAIT: u32 = 6;
+/// Return from `futex_wait` after having slept (used by harnesses).
+pub const SITE_FUTEX_RET: u32 = 7;
+/// `Mutex::sys_unlock`: `swap(MUTEX_UNLOCKED)`.
+pub const SITE_UNLOCK_SWAP: u32 = 8;
+/// `futex_wake`.
+pub const SITE_FUTEX_WAKE: u32 = 9;
+/// CAS-only `Mutex::sys_lock`: `compare_exchange`.
+pub const SITE_CASLOCK_CAS: u32 = 10;
+/// CAS-only `Mutex::sys_unlock`: `swap(MUTEX_UNLOCKED)`.
+pub const SITE_CASLOCK_UNLOCK: u32 = 11;
+
+/// `BiArc::try_clone`: `swap(STATE_SHARED)`.
+pub const SITE_BIARC_CLONE_SWAP: u32 = 20;
+/// `BiArc::get_if_shared`: `load`.
+pub const SITE_BIARC_GET_LOAD: u32 = 21;
+/// `BiArc::drop`: `swap(STATE_UNSHARED)`.
+pub const SITE_BIARC_DROP_SWAP: u32 = 22;
+/// `BiArc::drop`: freeing the allocation.
+pub const SITE_BIARC_DROP_FREE: u32 = 23;
+/// `BiArc::get_unconditional`: plain read of the value.
+pub const SITE_BIARC_GET_UNCOND: u32 = 24;
+
+/// Table of callbacks installed by a harness.
+pub struct Hooks {
+    /// Called immediately before the operation named by the site.
+    pub yield_point: fn(site: u32),
+    /// Replacement for `futex_wait`; returns `false` to fall
+    /// back to the real system call.
+    pub futex_wait: fn(uaddr: &AtomicU32, val: u32) -> bool,
+    /// Replacement for `futex_wake`; returns `false` to fall
+    /// back to the real system call.
+    pub futex_wake: fn(uaddr: &AtomicU32, cnt: u32) -> bool,
+}
+
+static HOOKS: AtomicPtr<Hooks> = AtomicPtr::new(core::ptr::null_mut());
+
+/// Installs (or, with `None`, removes) the hook table.
+pub fn install(hooks: Option<&'static Hooks>) {
+    let p = match hooks {
+        Some(h) => core::ptr::from_ref(h).cast_mut(),
+        None => core::ptr::null_mut(),
+    };
+    HOOKS.store(p, Ordering::SeqCst);
+}
+
+fn get() -> Option<&'static Hooks> {
+    let p = HOOKS.load(Ordering::SeqCst);
+    // SAFETY: `p` is null or came from a `&'static Hooks`.
+    unsafe { p.as_ref() }
+}
+
+/// Called before every atomic operation in the hooked files.
+#[inline]
+pub fn yield_point(site: u32) {
+    if let Some(h) = get() {
+        (h.yield_point)(site);
+    }
+}
+
+/// Returns `true` if a harness handled the wait.
+#[inline]
+pub fn futex_wait(uaddr: &AtomicU32, val: u32) -> bool {
+    match get() {
+        Some(h) => (h.futex_wait)(uaddr, val),
+        None => false,
+    }
+}
+
+/// Returns `true` if a harness handled the wake.
+#[inline]
+pub fn futex_wake(uaddr: &AtomicU32, cnt: u32) -> bool {
+    match get() {
+        Some(h) => (h.futex_wake)(uaddr, cnt),
+        None => false,
+    }
+}
+
+/// Public face of the crate-private [`crate::mutex::Mutex`].
+#[cfg(any(test, feature = "memory", feature = "sdlib", feature = "posix"))]
+pub struct VerifMutex<T>(crate::mutex::Mutex<T>);
+
+/// Guard of a [`VerifMutex`].
+#[cfg(any(test, feature = "memory", feature = "sdlib", feature = "posix"))]
+pub struct VerifMutexGuard<'a, T>(crate::mutex::MutexGuard<'a, T>);
+
+#[cfg(any(test, feature = "memory", feature = "sdlib", feature = "posix"))]
+impl<T> VerifMutex<T> {
+    pub fn new(v: T) -> Self {
+        Self(crate::mutex::Mutex::new(v))
+    }
+
+    pub fn lock(&self) -> VerifMutexGuard<'_, T> {
+        match self.0.lock() {
+            Ok(g) => VerifMutexGuard(g),
+            Err(e) => match e {},
+        }
+    }
+
+    /// The current value of the mutex word.
+    pub fn key(&self) -> u32 {
+        self.0.verif_key()
+    }
+
+    /// Calls `sys_unlock` without holding a guard; `true` means `Ok`.
+    pub fn unlock_raw(&self) -> bool {
+        self.0.sys_unlock().is_ok()
+    }
+
+    /// Reads the protected value without taking the lock.
+    ///
+    /// # Safety
+    ///
+    /// No other thread may be writing the value.
+    pub unsafe fn peek(&self) -> T
+    where
+        T: Copy,
+    {
+        // SAFETY: see the function's contract.
+        unsafe { self.0.verif_peek() }
+    }
+}
+
+#[cfg(any(test, feature = "memory", feature = "sdlib", feature = "posix"))]
+impl<T> core::ops::Deref for VerifMutexGuard<'_, T> {
+    type Target = T;
+    fn deref(&self) -> &T {
+        &self.0
+    }
+}
+
+#[cfg(any(test, feature = "memory", feature = "sdlib", feature = "posix"))]
+impl<T> core::ops::DerefMut for VerifMutexGuard<'_, T> {
+    fn deref_mut(&mut self) -> &mut T {
+        &mut self.0
+    }
+}
